@@ -35,6 +35,9 @@ func c08Features(p *project) string {
 
 // c08Case runs the clauses on one project; it returns false when the project is not
 // in the property's domain (rejected, or no root value).
+const c08Description = "set by the caller:  two\n lines\t\"quoted\""
+const c08DescriptionNormal = "set by the caller: two lines \"quoted\""
+
 func c08Case(w *core.W, p *project, family string) bool {
 	w.S.Evaluations++
 	wit, _ := stdjson.Marshal(p)
@@ -50,6 +53,8 @@ func c08Case(w *core.W, p *project, family string) bool {
 	var ex, oas []byte
 	comps := map[string][]byte{}
 	var compErr, infoErr string
+	var oasD []byte
+	var oasDErr error
 	hasRoot := false
 	rec, site := guard(func() {
 		root, berr := buildProject(p)
@@ -97,6 +102,10 @@ func c08Case(w *core.W, p *project, family string) bool {
 		for _, inf := range openapi.Dereference(root) {
 			walk(inf, 0)
 		}
+		// a description given by the caller replaces the root's own note and nothing else
+		od := openapi.NewSchemaObject(root)
+		od.SetDescription(c08Description)
+		oasD, oasDErr = od.MarshalJSON()
 	})
 	if err != nil || (rec == nil && !hasRoot) {
 		w.Class("out-of-domain")
@@ -130,6 +139,36 @@ func c08Case(w *core.W, p *project, family string) bool {
 	if serr != nil {
 		fail("openapi-is-json", fmt.Sprintf("OpenAPI text %s is not JSON: %v", trunc(string(oas), 100), serr), nil)
 		return true
+	}
+	if schD, derr := ref.DecodeAny(oasD); oasDErr != nil || derr != nil {
+		fail("conversion-succeeds", fmt.Sprintf("with SetDescription: %s err=%v %v", trunc(string(oasD), 100), oasDErr, derr), map[string]string{"via": "description"})
+		return true
+	} else if m, ok := schD.(map[string]any); !ok || m["description"] != c08DescriptionNormal {
+		fail("description-set", fmt.Sprintf("SetDescription(%q): converted schema %s", c08Description, trunc(string(oasD), 160)), nil)
+		return true
+	} else if m0, ok := sch.(map[string]any); ok {
+		delete(m, "description")
+		// a reference with a description is wrapped as {allOf: [{$ref}], description}
+		// ($ref admits no siblings in OpenAPI 3.0): the same schema
+		unwrap := func(x map[string]any) map[string]any {
+			if l, ok := x["allOf"].([]any); ok && len(x) == 1 && len(l) == 1 {
+				if inner, ok := l[0].(map[string]any); ok && inner["$ref"] != nil {
+					return inner
+				}
+			}
+			return x
+		}
+		a, _ := stdjson.Marshal(unwrap(m))
+		d0 := m0["description"]
+		delete(m0, "description")
+		b, _ := stdjson.Marshal(unwrap(m0))
+		if d0 != nil {
+			m0["description"] = d0
+		}
+		if string(a) != string(b) {
+			fail("description-set", fmt.Sprintf("SetDescription changed more than the description: %s vs %s", trunc(string(a), 120), trunc(string(b), 120)), nil)
+			return true
+		}
 	}
 	o := &ref.OAS{Components: map[string]any{}}
 	for n, b := range comps {
